@@ -49,21 +49,37 @@ func Load(repoDir, goarch string) (*Prog, error) {
 		env = append(env, "GOARCH="+goarch)
 	}
 	cfg := &packages.Config{
-		Mode:  packages.LoadAllSyntax,
-		Dir:   repoDir,
-		Env:   env,
-		Tests: false,
+		Mode:    packages.LoadAllSyntax,
+		Dir:     repoDir,
+		Env:     env,
+		Tests:   false,
+		Overlay: SwitchOverlay(repoDir),
 	}
+	nOverlay := len(cfg.Overlay)
 	pkgs, err := packages.Load(cfg, "./...")
 	if err != nil {
 		return nil, fmt.Errorf("load: %v", err)
 	}
 	var errs []string
-	packages.Visit(pkgs, nil, func(p *packages.Package) {
-		for _, e := range p.Errors {
-			errs = append(errs, e.Error())
+	collect := func() {
+		errs = nil
+		packages.Visit(pkgs, nil, func(p *packages.Package) {
+			for _, e := range p.Errors {
+				errs = append(errs, e.Error())
+			}
+		})
+	}
+	collect()
+	if len(errs) > 0 && nOverlay > 0 {
+		// the normalised text must not be what fails: read the author's text as it is
+		cfg.Overlay = nil
+		nOverlay = 0
+		pkgs, err = packages.Load(cfg, "./...")
+		if err != nil {
+			return nil, fmt.Errorf("load: %v", err)
 		}
-	})
+		collect()
+	}
 	if len(errs) > 0 {
 		return nil, fmt.Errorf("type/load errors: %s", strings.Join(errs, "; "))
 	}
@@ -127,6 +143,7 @@ func Load(repoDir, goarch string) (*Prog, error) {
 		}
 	}
 	p.Stats["packages"] = len(p.Roots)
+	p.Stats["files_read_with_tagless_switches_as_if_chains"] = nOverlay
 	p.Stats["packages_with_deps"] = len(p.AllPkgs)
 	p.Stats["functions_all"] = len(p.AllFns)
 	p.Stats["functions_module"] = len(p.ModFns)
